@@ -153,6 +153,7 @@ def _fsolve(self, interp, args, kwargs, node):
 
 
 Lib.f_autograd__jacobian = _jacobian
+Lib.f_autograd__grad = _jacobian          # derivative w.r.t. the first argument of a scalar function
 Lib.f_np__vectorize = _vectorize
 Lib.f_scipy__integrate__quad = _quad
 Lib.f_scipy__optimize__fsolve = _fsolve
